@@ -595,6 +595,10 @@ class Run:
                 iv[5] = pre
                 break
 
+    free_after_fixed = False     # replays: continue with any schedule once the recorded one no longer fits this tree
+    fixed_terminated = True      # replays: whether the recorded run had ended
+    deviated = False
+
     def go(self, rng, outcome_of, wake_bias=0.5, fixed=None, timed=False):
         """drive until every worker exited / failed or the section budget is used up"""
         from avocado_i2n.plugins.runner import TestRunner
@@ -621,14 +625,18 @@ class Run:
                 runnable = [i for i in alive if state[i] != "sleep"] or alive
                 # sleeping workers are woken with some probability, always when nobody else can move
                 pool = runnable + [i for i in alive if state[i] == "sleep" and rng.random() < wake_bias]
-                if fixed is not None:
-                    if len(self.sections) >= len(fixed):
-                        break
+                follow = fixed is not None and len(self.sections) < len(fixed) and state[fixed[len(self.sections)][0]] != "done"
+                if fixed is not None and not follow:
+                    used_up = len(self.sections) >= len(fixed) and not self.deviated
+                    if not self.free_after_fixed or (used_up and not self.fixed_terminated):
+                        break       # a replayed run that did not end: judged at the same length
+                    self.deviated = True
+                if follow:
                     w, fout = fixed[len(self.sections)]
                     out = None if fout in ("-", None) else fout
-                    if state[w] == "done":
-                        break
                 else:
+                    # no schedule given, or (free_after_fixed) the replayed schedule is used up or names a worker that has already
+                    # left on this tree: any continuation will do
                     if timed:
                         tmin = min(ready_at[i] for i in alive)
                         w = rng.choice([i for i in alive if ready_at[i] <= tmin + 1e-9])
